@@ -159,6 +159,7 @@ SILENT = [
                        ("model/rand_info_builder.py", "RandInfoBuilder.process_fieldref", {"ex_randset": "survivor"})]),
     ("debug-prints", None),         # a print() inserted at the top of every function
     ("rename-all-locals", None),    # every local variable of every function renamed (parameters, globals, attributes untouched)
+    ("hoist-tests", None),          # `if <test with a method call>:` becomes `_hN = <test>; if _hN:` in every function
 ]
 
 
@@ -277,6 +278,17 @@ def apply_silent(root, kind, spec):
                     src = ast.unparse(t)
                     compile(src, p, "exec")
                     open(p, "w").write(src)
+    elif kind == "hoist-tests":
+        for dp, dn, fn in os.walk(base):
+            for f in fn:
+                if f.endswith(".py"):
+                    p = os.path.join(dp, f)
+                    t = ast.parse(open(p).read())
+                    _hoist_tests(t)
+                    ast.fix_missing_locations(t)
+                    src = ast.unparse(t)
+                    compile(src, p, "exec")
+                    open(p, "w").write(src)
     elif kind == "rename-locals":
         for file, func, ren in spec:
             p = os.path.join(base, file)
@@ -287,6 +299,43 @@ def apply_silent(root, kind, spec):
                         n.id = ren[n.id]
             src = ast.unparse(t)
             open(p, "w").write(src)
+
+
+_HOIST_SKIP = {"isinstance", "len", "hasattr", "issubclass", "type", "callable", "getattr", "id"}
+
+
+def _hoist_tests(tree):
+    """inside functions: `if T:` whose test calls a method/function (not a builtin predicate) -> `_hN = T` then `if _hN:`"""
+    cnt = [0]
+
+    def has_call(t):
+        for n in ast.walk(t):
+            if isinstance(n, ast.Call):
+                nm = n.func.attr if isinstance(n.func, ast.Attribute) else getattr(n.func, "id", "")
+                if nm not in _HOIST_SKIP:
+                    return True
+        return False
+
+    def block(stmts):
+        out = []
+        for st in stmts:
+            for fld in ("body", "orelse", "finalbody"):
+                v = getattr(st, fld, None)
+                if isinstance(v, list) and v and isinstance(v[0], ast.stmt):
+                    setattr(st, fld, block(v))
+            for h in getattr(st, "handlers", []) or []:
+                h.body = block(h.body)
+            if isinstance(st, ast.If) and has_call(st.test) and not any(isinstance(n, (ast.NamedExpr, ast.Lambda)) for n in ast.walk(st.test)):
+                cnt[0] += 1
+                nm = "_h%d" % cnt[0]
+                out.append(ast.Assign(targets=[ast.Name(id=nm, ctx=ast.Store())], value=st.test, lineno=st.lineno, col_offset=st.col_offset))
+                st.test = ast.Name(id=nm, ctx=ast.Load())
+            out.append(st)
+        return out
+
+    for n in ast.walk(tree):
+        if isinstance(n, ast.FunctionDef):
+            n.body = block(n.body)
 
 
 def _rename_all_locals(tree):
